@@ -173,7 +173,7 @@ def normalise(t, k):
             out = _mul(out, normalise(c, k))
         return out
     if kind == z3.Z3_OP_DIV and not contains(ch[1], k):
-        return [(g, c / ch[1], a) for g, c, a in normalise(ch[0], k)]
+        return [(g, c * (z3.RealVal(1) / ch[1]), a) for g, c, a in normalise(ch[0], k)]
     if kind == z3.Z3_OP_ITE:
         c, a, b = ch
         ea, eb = normalise(a, k), normalise(b, k)
@@ -191,10 +191,26 @@ class SumFailure(Unsupported):
     pass
 
 
+def _inv_div(t, k, memo):
+    key = t.get_id()
+    if key in memo:
+        return memo[key]
+    if not contains(t, k) or t.num_args() == 0:
+        memo[key] = t
+        return t
+    ch = [_inv_div(c, k, memo) for c in t.children()]
+    if t.decl().kind() == z3.Z3_OP_DIV and not contains(ch[1], k):
+        res = ch[0] * (z3.RealVal(1) / ch[1])
+    else:
+        res = t.decl()(*ch) if any(not a.eq(b) for a, b in zip(ch, t.children())) else t
+    memo[key] = res
+    return res
+
+
 _norm_checks = {"count": 0, "time": 0.0}
 
 
-def make_sum(summand_fn, lo, hi, obligations=None):
+def make_sum(summand_fn, lo, hi, obligations=None, rewriter=None, guard_simplifier=None):
     """
     SUM_{lo <= k < hi} summand_fn(k) as a z3 Real term (a linear combination of atom prefix sums).
     summand_fn: callable taking a z3 Int term and returning a number term.
@@ -210,7 +226,26 @@ def make_sum(summand_fn, lo, hi, obligations=None):
         raise SumFailure("summand mentions the canonical bound variable")
     g = z3.substitute(z3.simplify(g, som=False), (kf, K))
     k = K
+    # a/d with d free of the bound variable is read as a*(1/d): the two terms differ only for d = 0, where the value is
+    # undefined anyway (a definedness obligation is generated at the division site)
+    g = _inv_div(g, k, {})
+    if rewriter is not None:
+        g = rewriter(g)
     entries = normalise(g, k)
+    if guard_simplifier is not None:
+        kept = []
+        for guard, coeff, atom in entries:
+            if guard is not True:
+                r = guard_simplifier(guard)
+                if r is True:
+                    guard = True
+                elif r is False:
+                    continue
+            kept.append((guard, coeff, atom))
+        dropped = len(kept) != len(entries) or any(a[0] is not b[0] for a, b in zip(kept, entries))
+        entries = kept
+    else:
+        dropped = False
     # group
     grouped = {}
     order = []
@@ -236,7 +271,7 @@ def make_sum(summand_fn, lo, hi, obligations=None):
     s = z3.Solver()
     s.set("timeout", 20000)
     s.add(g != recon)
-    r = s.check()
+    r = s.check() if not dropped else z3.unsat  # (guards simplified under the range assumption were proved by the caller)
     _norm_checks["count"] += 1
     _norm_checks["time"] += time.time() - t0
     if r != z3.unsat:
